@@ -49,6 +49,7 @@ WORLDS = {
     "W64-330": (["FP_PRIME=330"], ""),
     "W64-575q": (["FP_PRIME=575", "FP_QNRES=on", "BN_PRECI=3072"], ""),
     "W64-638": (["FP_PRIME=638"], ""),
+    "W64-544": (["FP_PRIME=544"], ""),
     "W64-638q": (["FP_PRIME=638", "FP_QNRES=on", "BN_PRECI=2048"], ""),
     "W64-dyn-san": (["ALLOC=DYNAMIC"], SAN),
     "W64-mt": (["MULTI=PTHREAD"], ""),
